@@ -288,7 +288,10 @@ class Check(PropertyCheck):
                   "names — the codec's nameprep/punycode path — stay a parameter); urlsplit/urlunsplit of the CRL "
                   "URL are the harness's. The CertStore lookup/caching branch is C17's (the store is emptied before every case). SNI values that the strict "
                   "verifier refuses as reference identifiers (wildcard-looking, underscore, trailing dot, leading hyphen) are checked for chain validity and name "
-                  "provenance only — plus, since the oracle audit, the RFC 6125 name rule applied directly to the leaf's SAN list. "
+                  "provenance only. ROUND-6 AUDIT DISCLOSURES: the clause 'issued by mitmproxy's CA' has NO Lean theorem (the model only has `akiFromSki`): issuer, signature and chain are "
+                  "`cryptography`'s and are asked by the oracle alone (strict verifier + OpenSSL X509_STRICT against the CA current at issue, incl. equal-DN CA switches); the first conjunct "
+                  "of plan_wellformed (`ekuServerAuth = true`) is true by construction of `dummyCert` — 'usable for TLS server authentication' rests on the tie (model plan vs parsed "
+                  "certificate: EKU) and the strict verifier; `classifyAscii`/`classifyT` are not run by C16's driver, they are tied by C15's `cls` cases. Plus, since the oracle audit, the RFC 6125 name rule applied directly to the leaf's SAN list. "
                   "ORACLE AUDIT — lenient branches, each exercised by known_selftest(): (a) `raised` is excused only when the case's OWN names (SNI-or-local address, "
                   "server address) are not encodable by ipaddress/idna — never because of upstream names; (b) strict == ref-invalid (the verifier refuses the "
                   "reference identifier): chain verified for another SAN, name clause by names_match(); (c) not_valid_before is snapped to the generated offset within "
